@@ -44,12 +44,16 @@ func (t fasttime) reached() bool {
 
 // makeDeadline returns a time that is approximately time.Now().Add(d)
 func makeDeadline(d time.Duration) fasttime {
+	// Read clockEnd before current: if another goroutine restarts a stopped clock
+	// between the two loads, current has already been refreshed when we read it.
+	clockEnd := fast.clockEnd.read()
+
 	// Increase the deadline since the clock we are reading may be
 	// just about to tick forwards.
 	end := fast.current.read() + durationToTicks(d+clockPeriod)
 
 	// Start or extend clock if necessary.
-	if end > fast.clockEnd.read() {
+	if end > clockEnd {
 		// If time.Since(last use) > timeout, there's a chance that
 		// fast.current will no longer be updated, which can lead to
 		// incorrect 'end' calculations that can trigger a false timeout
@@ -57,21 +61,22 @@ func makeDeadline(d time.Duration) fasttime {
 		if !fast.running && !fast.start.IsZero() {
 			// update fast.current
 			fast.current.write(durationToTicks(time.Since(fast.start)))
-			// recalculate our end value
-			end = fast.current.read() + durationToTicks(d+clockPeriod)
 		}
-		fast.mu.Unlock()
+		// Always recalculate our end value under the lock: the value read above
+		// is stale if another goroutine refreshed and restarted the clock after
+		// our first load, and the clock must be extended in the same critical
+		// section so that it cannot stop and go stale again in between.
+		end = fast.current.read() + durationToTicks(d+clockPeriod)
 		extendClock(end)
+		fast.mu.Unlock()
 	}
 
 	return end
 }
 
 // extendClock ensures that clock is live and will run until at least end.
+// fast.mu must be held.
 func extendClock(end fasttime) {
-	fast.mu.Lock()
-	defer fast.mu.Unlock()
-
 	if fast.start.IsZero() {
 		fast.start = time.Now()
 	}
